@@ -11,6 +11,7 @@
 (*                 differences of two constants of the same key            *)
 (*   literal       keys that are literal constants (except keccak(n))      *)
 (*   value_consts  the same closure for constants in stored VALUES only    *)
+(*   storage_ops   executed offsets whose code byte is SLOAD / SSTORE      *)
 (***************************************************************************)
 EXTENDS Layout
 
@@ -18,10 +19,13 @@ Attributable(keys) == ToSet(keys.consts) \cup ToSet(keys.derived)
 Required(keys)     == ToSet(keys.literal)
 
 (* C05: no phantom slots; in particular no access at all means an empty layout *)
-NoPhantom(entries, keys) == Slots(entries) \subseteq Attributable(keys)
+NoPhantom(entries, keys) == /\ Slots(entries) \subseteq Attributable(keys)
+                            /\ (keys.storage_ops = 0 => entries = << >>)
 Phantoms(entries, keys)  == Slots(entries) \ Attributable(keys)
 (* the known way this fails: the slot occurs only inside the VALUE operand of a store *)
-OnlyInValue(entries, keys) == Phantoms(entries, keys) \subseteq ToSet(keys.value_consts)
+OnlyInValue(entries, keys) == /\ Phantoms(entries, keys) # {}
+                              /\ Phantoms(entries, keys) \subseteq ToSet(keys.value_consts)
+                              /\ keys.storage_ops > 0
 
 (* C06: no missed slots *)
 NoMissed(entries, keys) == Required(keys) \subseteq Slots(entries)
